@@ -236,6 +236,13 @@ def _classify(diags, table, unit, cfg, text_lines=None, lifted=None):
                'properties': props, 'canary': canary, 'rendered': d.get('rendered', '')[:4000],
                'function': enclosing_fn(text_lines, labels[0]['assembled_line']) if (text_lines and labels and not str(labels[0]['file']).startswith('vstd:')) else None}
         fn_name = rec.get('function')
+        if not named and 'post-condition of closure' in kind and lifted and fn_name in lifted:
+            # the contract spliced onto a closure (R12) belongs to the clauses of the enclosing function, not to the unit's
+            # list for unnamed panic / overflow sites
+            cl_props = sorted({p for n in lifted[fn_name] for p in n.split('.')[0].split('+') if re.fullmatch(r'C\d{2,3}', p)})
+            if cl_props:
+                rec['properties'] = cl_props
+                rec['obligation'] = f"{unit}.{fn_name}.closure-contract: " + (labels[0]['text'][:90] if labels else '?')
         if not in_lifted and not named and not canary and lifted and fn_name in lifted and ('assertion failed' in kind or 'post-condition of closure' in kind):
             # a proof step spliced into a lifted function (a fact about the program state at that point, proved on the unchanged
             # tree) no longer holds: the verifier assumes it from there on, so the clauses it serves are no longer established.
